@@ -70,6 +70,10 @@ func (p *JSONParser) Parse(jsonString string) (*core.Payload, error) {
 		)
 	}
 
+	if containsNullElement(jsonData) {
+		return nil, core.ErrParsingPayload.Wrap("json arrays cannot contain null elements")
+	}
+
 	pw := core.PayloadWrapper{}
 	err = types.UnmarshalJSON(p.cdc, []byte(jsonString), &pw)
 	if err != nil {
@@ -80,4 +84,26 @@ func (p *JSONParser) Parse(jsonString string) (*core.Payload, error) {
 	}
 
 	return pw.Orbiter, nil
+}
+
+// containsNullElement reports whether any array nested in the JSON value has a null element.
+// Such an element is decoded as a nil entry of a repeated message field, which the codec
+// cannot pack into an Any without panicking.
+func containsNullElement(value any) bool {
+	switch v := value.(type) {
+	case map[string]any:
+		for _, e := range v {
+			if containsNullElement(e) {
+				return true
+			}
+		}
+	case []any:
+		for _, e := range v {
+			if e == nil || containsNullElement(e) {
+				return true
+			}
+		}
+	}
+
+	return false
 }
